@@ -402,9 +402,8 @@ func genC06(t *rapid.T) C06Case {
 				if e.Val.Len > 1<<20 {
 					huge++
 				}
-				if !c.Native && e.Val.Len == 0 {
-					e.Val = model.ValOf([]byte("e")) // known finding shadow-empty-value
-				}
+				// (live empty values in shadow mode: the listed finding shadow-empty-value concerns the copy-back of
+				// a merge; an upload involves none, so empty values are part of this check's domain)
 			}
 			if c.Native {
 				e.TS = gen.TS(t, "ts")
